@@ -663,7 +663,7 @@ fn variants(ctx: &Ctx, fam: &Value, field: &str) -> Vec<Art> {
     let lit = literal(b"hello world");
     let mut out: Vec<Art> = Vec::new();
     // layers that do not depend on the container are swept once per carrier; for the others the base artefact still goes through
-    let first_cont = if carrier == "skesk_v5" { "gnupg_aead" } else { "seipd_v1" };
+    let first_cont = if carrier == "skesk_v5" { "gnupg_aead" } else if carrier.starts_with("pkesk6_") { "seipd_v2" } else { "seipd_v1" };
     if kind == "message" && matches!(target, "framing" | "esk_fields" | "session_plaintext") && cont != first_cont && field != "truncate_every_prefix" {
         return wrap_message(ctx, carrier, cont, &lit, seed).map(|m| vec![Art::Message(m)]).unwrap_or_default();
     }
